@@ -5,7 +5,10 @@ use std::time::Duration;
 use anyhow::Context;
 use aquatic_common::access_list::AccessListCache;
 use crossbeam_channel::Sender;
+#[cfg(not(aquatic_verif))]
 use mio::{Events, Interest, Poll, Token};
+#[cfg(aquatic_verif)]
+use aquatic_verif_rt::net::udp::{Events, Interest, Poll, Token};
 
 use aquatic_common::{
     access_list::create_access_list_cache, privileges::PrivilegeDropper, CanonicalSocketAddr,
